@@ -362,15 +362,11 @@ pub fn gen_c01(cx: &mut Ctx) {
             }
         }
     }
-    if cx.thorough {
-        // the error path: 65 535 distinct literals must convert, 65 536 must return the error
-        for count in [65535usize, 65536] {
-            let e = and((0..count).map(|i| lit(&format!("v{}", i))).collect());
-            let r = Bdd::try_from(e);
-            let ok = matches!((&r, count), (Ok(_), 65535) | (Err(_), 65536));
-            writeln!(cx.out, "C01 forms {} => {} ;nt", count, enc_bool(ok)).unwrap();
-            cx.count += 1;
-        }
+    // the error path: lib-bdd supports at most u16::MAX - 2 = 65 533 variables; above that the
+    // conversion must return the error (never panic, never a different function)
+    let counts: &[usize] = if cx.thorough { &[65533, 65534, 65535, 65536, 70000] } else { &[65534, 65535, 65536] };
+    for count in counts {
+        cx.emit("C01", "limit", &[Arg::A(count.to_string())], true);
     }
 }
 
